@@ -29,7 +29,21 @@ RULE = ("random discrete Bayesian networks with 1..6 variables, cardinalities 1.
         "exactly; all kinds of cases are mixed in one shuffled order so a budget cut drops no kind as a block.  Compared: nodes, edges, state names as "
         "strings, the value of EVERY named assignment (exact float equality for BIF/XMLBIF/UAI, numpy round(4) for "
         "NET), parent order and flat table against the model's read-back, and the written text (variable order, "
-        "parent order, number list) against the model's abstract document.  Any exception of a reader or writer on "
+        "parent order, number list) against the model's abstract document.  Generalisation classes: (A) one writer object str() twice + write_*, one reader "
+        "object's getters and get_model() twice, save / edit (add_cpds replacement, remove_node, add_node+edge, remove_edge) / "
+        "save again to the same path against a freshly built model; (B) the model given to writers and save is unchanged "
+        "(nodes, attributes, edges, every CPD; the ORDER of model.cpds is excluded: UAIWriter/XMLBIFWriter sort that list in "
+        "place); (C) two get_model() results share no objects and scribbling over the first does not change the next; (D) "
+        "pandas: not applicable, no frames in the readwrite API; (E) names equal to / containing keywords and substrings of each "
+        "other (x1/x10, table/tablex/table1); non-string names are outside the statement (identifiers); (F) state names: "
+        "identifiers, default integers, integers that are not their positions, booleans, shared between variables (compared as "
+        "strings); (G) 8..10 parents in one CPD, cardinality 1, single-node, edgeless and empty networks (empty: BIF/XMLBIF/NET; "
+        "UAIReader rejects the UAI text of an empty network -- reported), round_values=0 vs None; (H) 5e-324 .. 1 in CPDs "
+        "incl. denormals and entries 1e-9..1e-15 apart, 5e-324 .. 1.8e308 in Markov potentials; (I) numpy and torch (float32-"
+        "exact values under torch); (J) n_jobs 1 / 2 / -1, include_properties, prettyprint=False, round_values, string= and "
+        "path= routes, comments in each format's syntax, save/load for every extension x filetype pair; (K) writers given "
+        "another model type, readers given no input, texts with a number (BIF: a row) removed must raise; (L) node / edge / CPD / "
+        "evidence / factor orders and hash seeds; (M) all kinds shuffled together.  Any exception of a reader or writer on "
         "these valid models is a violation.  Non-trivial: some CPD has a parent; distinct = distinct canonical case")
 TRUSTED_BASE = ["pyparsing / xml.etree tokenisation of the text (the harness parses the written text independently "
                 "with regular expressions to obtain the abstract document)",
@@ -291,7 +305,7 @@ def cases(tier, seed):
     nb = 150 if tier == "quick" else 2400
     for i in range(nb):
         n = rng.choice([1, 2, 3, 3, 4, 4, 5, 6])
-        bif = (i % 7 == 0) if tier == "quick" else (i % 5 in (0, 2))
+        bif = (i % 8 == 0) if tier == "quick" else (i % 5 in (0, 2))
         c = {"kind": "bn", "bn": gen_bn(rng, n, uai_big_cards=(i % 5 == 0)), "njobs": 2 if i % 100 == 12 else 1,
              "saveload": i % 3 == 0 and i % 10 != 0, "formats": ["bif", "xmlbif", "uai", "net"] if bif else ["xmlbif", "uai", "net"]}
         out.append(c)
@@ -304,8 +318,13 @@ def cases(tier, seed):
         torch_ = o["backend"] == "torch"
         if torch_ and o["round_values"] == 3:
             o["round_values"] = 4        # torch: values must stay float32-exact after rounding
-        return {"kind": "bn", "bn": gen_bn(rng, n or rng.choice([1, 2, 3, 4, 5]), states_kind=kind,
-                                           modes=["dyadic16", "onehot"] if torch_ else None),
+        forced = None
+        if n == "fixed":      # listed variants: a structure on which every option is observable
+            nm = rng.sample(KW_NAMES + PLAIN_NAMES, 3)
+            forced = (nm, {nm[0]: 2, nm[1]: 3, nm[2]: rng.choice([2, 4])}, {nm[2]: [nm[1], nm[0]], nm[1]: [nm[0]]}, None)
+            n = 3
+        return {"kind": "bn", "bn": gen_bn(rng, n or rng.choice([1, 2, 3, 4, 5]), states_kind=kind, forced=forced,
+                                           modes=["dyadic16"] if torch_ else (["thirds", "dyadic", "near"] if forced else None)),
                 "njobs": njobs, "saveload": rng.random() < 0.15, "opts": o,
                 "formats": ["bif", "xmlbif", "uai", "net"] if bif else ["xmlbif", "uai", "net"]}
 
@@ -317,7 +336,7 @@ def cases(tier, seed):
                                ({"backend": "torch", "session": True}, "ident", 1), ({"session": True}, "int_perm", -1),
                                ({"props": True, "session": True, "route": "path"}, "default_int", 2),
                                ({"round_values": 12, "decorate": True}, "bool", 1)]:
-            out.append(variant(opts, kind, True, nj, n=rng.choice([2, 3, 4])))
+            out.append(variant(opts, kind, True, nj, n="fixed"))
     # every option drawn independently
     for i in range(36 if tier == "quick" else 700):
         opts = {"session": rng.random() < 0.5, "route": rng.choice(["string", "path"]), "decorate": rng.random() < 0.3,
@@ -347,9 +366,9 @@ def cases(tier, seed):
         for names, fc, fp, spi in REGRESSION_STRUCTURES:
             out.append({"kind": "bn", "fixed": True, "bn": gen_bn(rng, len(names), forced=(names, fc, fp, spi)), "njobs": 1,
                         "saveload": rep % 2 == 1, "formats": ["bif", "xmlbif", "uai", "net"]})
-    for i in range(5 if tier == "quick" else 40):
-        out.append({"kind": "bn", "bn": gen_bn(rng, 4, big=True), "njobs": 1, "saveload": i % 2 == 0,
-                    "opts": {"session": i % 2 == 0},
+    for i in range(3 if tier == "quick" else 40):
+        out.append({"kind": "bn", "bn": gen_bn(rng, 4, big=True), "njobs": 1, "saveload": i % 2 == 1,
+                    "opts": {"session": i % 3 == 1},
                     "formats": ["xmlbif", "uai", "net"] + (["bif"] if i % 3 == 0 else [])})
     # save/load dispatch: every (extension, filetype) pair, consistent or contradictory
     for rep in range(1 if tier == "quick" else 5):
@@ -724,7 +743,7 @@ def run_bn_inner(case, drv, opts):
     if list(m.nodes()) != sorted(m.nodes()):
         tags.append("node order != sorted")
     for k_, v_ in sorted(opts.items()):
-        if v_ not in (None, False, "string", "numpy"):
+        if v_ is not None and v_ is not False and v_ not in ("string", "numpy") or k_ == "xml_pretty" and v_ is False:
             tags.append("opt %s=%s" % (k_, v_))
     if b.get("states_kind", "ident") != "ident":
         tags.append("state names " + b["states_kind"])
